@@ -69,6 +69,8 @@ class C12(Campaign):
         prog = sc["programs"][0]
         # distinct listener objects that compare equal (value-based __eq__): still distinct providers
         prog["listener_eq_all"] = rnd.random() < 0.2
+        if prog["model"].get("kind", "attr") == "attr" and rnd.random() < 0.2:
+            prog["model"]["kind"] = "libmodel"  # the user's model class extends statemachine.model.Model
         # listeners that are falsy objects (empty recorders defining __len__, or __bool__)
         prog["listener_falsy"] = {r_: rnd.choice(["len", "bool"]) for r_ in prog["listeners"] if rnd.random() < 0.2}
         ls = list(prog["listeners"])
